@@ -1,5 +1,5 @@
 (* C12 — Removing unused variables never changes results. *)
-From GX Require Import Base Expr Topo Ode Target Sem Codegen Load Valid Run Carriers Theory Examples.
+From GX Require Import Base Expr Topo Ode Target Sem Codegen Load Valid MirrorValid Run Carriers Theory Examples.
 Open Scope string_scope.
 Open Scope list_scope.
 
@@ -14,6 +14,16 @@ Theorem C12_rhs_with_and_without_removal_agree :
                 /\ length out = length ss.
 Proof. exact @rhs_agree. Qed.
 Print Assumptions C12_rhs_with_and_without_removal_agree.
+
+(* and for the mirror of the generator this is unconditional: every well-formed model *)
+Theorem C12_mirror_rhs_unchanged_by_removal_for_every_well_formed_model :
+  forall (T : Type) (N : NumOps T) (o : ode) order1 order2 ss f1 f2 (inp : inputs T),
+    sorted_states o = Some ss -> MirrorValid.wf_gen o ss false = true ->
+    gen_rhs o false order1 = Some f1 -> gen_rhs o true order2 = Some f2 ->
+    sizes_ok o ss inp ->
+    exists out, exec N f1 false inp = Some out /\ exec N f2 false inp = Some out /\ length out = length ss.
+Proof. exact @mirror_rhs_removal_invariant. Qed.
+Print Assumptions C12_mirror_rhs_unchanged_by_removal_for_every_well_formed_model.
 
 (* the same for the explicit Euler scheme: each validated program computes
    states + dt * (meaning of the derivative), hence they agree *)
